@@ -1,9 +1,425 @@
 /-
-  QEModel.C05 — executable model for property C05 (stub; to be filled in).
+  QEModel.C05 — two-player Nash solvers and brute-force pure equilibria.
+  Mirrors
+    quantecon/game_theory/lemke_howson.py   (_initialize_tableaux 291-315,
+        _lemke_howson_tbl 377-418, _lemke_howson_capping 193-220,
+        _get_mixed_actions 444-459) on top of QEModel.Pivot,
+    quantecon/game_theory/support_enumeration.py (_support_enumeration_gen 84-113,
+        _indiff_mixed_action 157-190) on top of C16.nextKArray, with the LAPACK
+        solve as a parameter (the driver instantiates MatAlg.solve, exact
+        Gauss-Jordan),
+    quantecon/game_theory/vertex_enumeration.py (_ints_arr_to_bits 287-290,
+        _vertex_enumeration_gen 106-123, _get_mixed_actions 318-335) with
+        Qhull's (equations, simplices) as inputs,
+    quantecon/game_theory/pure_nash.py 67-69 with NormalFormGame.is_nash /
+        Player.is_best_response / payoff_vector unfolded for pure profiles.
+
+  A bimatrix game is `(m, n, A, B)`: `A i j` (i<m, j<n) is `payoff_arrays[0]`,
+  `B j i` (j<n, i<m) is `payoff_arrays[1]` (own action first), as total functions
+  read only below the dimensions.
 -/
 import QEModel.Base
+import QEModel.Pivot
+import QEModel.MatAlg
+import QEModel.C16
 namespace QE.C05
+open QE QE.Pivot QE.MatAlg
 
-def handle (_toks : List String) : String := "bad-op"
+variable {α : Type} [Zero α] [One α] [Add α] [Sub α] [Mul α] [Div α] [Neg α] [LT α] [LE α]
+  [DecidableLT α] [DecidableLE α] [BEq α]
+
+/-! ### payoffs of mixed actions (shared by the solvers and the specification) -/
+
+/-- `(A y)_i = Σ_{j<n} A i j * y j` -/
+def payoffVec (n : Nat) (A : Nat → Nat → α) (y : Nat → α) (i : Nat) : α :=
+  sumRange n fun j => A i j * y j
+
+/-- `xᵀ v = Σ_{i<m} x i * v i` -/
+def dotTo (m : Nat) (x v : Nat → α) : α := sumRange m fun i => x i * v i
+
+/-! ### Lemke-Howson -/
+
+/-- `payoff_matrix.min()` over an `r × c` array -/
+def matMin (r c : Nat) (A : Nat → Nat → α) : α :=
+  (List.range r).foldl (fun acc i =>
+    (List.range c).foldl (fun acc j => if A i j < acc then A i j else acc) acc) (A 0 0)
+
+/-- lemke_howson.py 293-297: the constant added to a payoff matrix whose minimum is `≤ 0` -/
+def shiftConst (r c : Nat) (A : Nat → Nat → α) : α :=
+  let mn := matMin r c A
+  if mn ≤ 0 then mn * (-(1 : α)) + 1 else 0
+
+/-- `tableaux[0]` (n rows): columns `0..m-1` hold player 1's shifted payoffs `B`, columns
+    `m..m+n-1` the slack identity, column `m+n` ones. -/
+def initT0 (m n : Nat) (B : Nat → Nat → α) : M α :=
+  let c1 := shiftConst n m B
+  M.tab n (m + n + 1) fun i j =>
+    if j < m then B i j + c1
+    else if j < m + n then (if j - m = i then 1 else 0)
+    else 1
+
+/-- `tableaux[1]` (m rows): columns `0..m-1` the slack identity, columns `m..m+n-1` player 0's
+    shifted payoffs `A`, column `m+n` ones. -/
+def initT1 (m n : Nat) (A : Nat → Nat → α) : M α :=
+  let c0 := shiftConst m n A
+  M.tab m (m + n + 1) fun i j =>
+    if j < m then (if j = i then 1 else 0)
+    else if j < m + n then A i (j - m) + c0
+    else 1
+
+/-- the pair of tableaux, the pair of bases, the entering variable, the step counter -/
+structure LHState (α : Type) where
+  T0 : M α
+  T1 : M α
+  b0 : List Nat
+  b1 : List Nat
+  pivot : Nat
+  numIter : Nat
+
+/-- `_initialize_tableaux`; `bases = (m..m+n-1, 0..m-1)` -/
+def lhInit (m n : Nat) (A B : Nat → Nat → α) (pivot : Nat) : LHState α :=
+  ⟨initT0 m n B, initT1 m n A, (List.range n).map (· + m), List.range m, pivot, 0⟩
+
+/-- one pass of the body of `for pl in pls` (lemke_howson.py 398-407): ratio test, pivoting,
+    exchange of the entering and the leaving variable. `slack_starts = (m, 0)`. -/
+def lhStep (m : Nat) (tp td : α) (s : LHState α) (pl : Nat) : LHState α :=
+  if pl = 0 then
+    let r := (lexMinRatio s.T0 s.pivot m tp td).2
+    { s with T0 := pivot s.T0 s.pivot r, b0 := s.b0.set r s.pivot, pivot := s.b0.getD r 0,
+             numIter := s.numIter + 1 }
+  else
+    let r := (lexMinRatio s.T1 s.pivot 0 tp td).2
+    { s with T1 := pivot s.T1 s.pivot r, b1 := s.b1.set r s.pivot, pivot := s.b1.getD r 0,
+             numIter := s.numIter + 1 }
+
+/-- the `while True` loop (395-416): the players alternate; stop with `converged` when the
+    initial label leaves, without when `num_iter >= max_iter`. `fuel = max_iter - 1`
+    (the test comes after the step: at least one step is always made). -/
+def lhLoop (m initPivot : Nat) (tp td : α) : Nat → LHState α → Nat → Bool × LHState α
+  | 0, s, pl =>
+    let s' := lhStep m tp td s pl
+    (decide (s'.pivot = initPivot), s')
+  | fuel + 1, s, pl =>
+    let s' := lhStep m tp td s pl
+    if s'.pivot = initPivot then (true, s') else lhLoop m initPivot tp td fuel s' (1 - pl)
+
+/-- `_lemke_howson_tbl(tableaux, bases, init_pivot, max_iter)` on freshly initialised tableaux -/
+def lhTbl (m n : Nat) (A B : Nat → Nat → α) (initPivot maxIter : Nat) (tp td : α) :
+    Bool × LHState α :=
+  let s0 := lhInit m n A B initPivot
+  let initPlayer := if s0.b0.contains initPivot then 1 else 0
+  lhLoop m initPivot tp td (maxIter - 1) s0 initPlayer
+
+structure LHOut (α : Type) where
+  converged : Bool
+  numIter : Nat
+  init : Nat
+  st : LHState α
+
+/-- the `for k in range(m+n-1)` loop of `_lemke_howson_capping` (198-213) followed by the
+    final run (215-218); `rem` = iterations of the `for` still to do. -/
+def lhCapLoop (m n : Nat) (A B : Nat → Nat → α) (maxIter capping : Nat) (tp td : α) :
+    Nat → Nat → Nat → Nat → LHOut α
+  | 0, initCurr, maxIterCurr, total =>
+    let r := lhTbl m n A B initCurr maxIterCurr tp td
+    ⟨r.1, total + r.2.numIter, initCurr, r.2⟩
+  | rem + 1, initCurr, maxIterCurr, total =>
+    let r := lhTbl m n A B initCurr (min maxIterCurr capping) tp td
+    let total' := total + r.2.numIter
+    if r.1 ∨ total' ≥ maxIter then ⟨r.1, total', initCurr, r.2⟩
+    else
+      let ic := if initCurr + 1 ≥ m + n then initCurr + 1 - (m + n) else initCurr + 1
+      lhCapLoop m n A B maxIter capping tp td rem ic (maxIterCurr - r.2.numIter) total'
+
+def lhCapping (m n : Nat) (A B : Nat → Nat → α) (initPivot maxIter capping : Nat) (tp td : α) :
+    LHOut α :=
+  lhCapLoop m n A B maxIter capping tp td (m + n - 1) initPivot maxIter 0
+
+/-- `sum_` of `_get_mixed_actions` for one player: the basic values of the rows whose basic
+    variable lies in `[start, stop)`, added in row order -/
+def basicSum (T : M α) (b : List Nat) (start stop : Nat) : α :=
+  (List.range T.nr).foldl (fun acc i =>
+    let k := b.getD i 0
+    if start ≤ k ∧ k < stop then acc + T.get i (T.nc - 1) else acc) 0
+
+/-- `out[k]` before normalisation: the basic value of variable `k` (0 when non-basic) -/
+def basicVal (T : M α) (b : List Nat) (k : Nat) : α :=
+  (List.range T.nr).foldl (fun acc i => if b.getD i 0 = k then T.get i (T.nc - 1) else acc) 0
+
+/-- `_get_mixed_actions` for one player: `out[start:stop]`, divided by `sum_` when `sum_ != 0` -/
+def mixedOf (T : M α) (b : List Nat) (start stop : Nat) : List α :=
+  let s := basicSum T b start stop
+  (List.range' start (stop - start)).map fun k =>
+    if s == 0 then basicVal T b k else basicVal T b k / s
+
+/-- `_get_mixed_actions(tableaux, bases)` -/
+def lhMixedActions (m n : Nat) (s : LHState α) : List α × List α :=
+  (mixedOf s.T0 s.b0 0 m, mixedOf s.T1 s.b1 m (m + n))
+
+/-! ### support enumeration -/
+
+/-- `a, next_k_array(a), …` while `a[-1] < n` -/
+def walkK (n : Nat) : Nat → List Nat → List (List Nat)
+  | 0, _ => []
+  | fuel + 1, a =>
+    if a.getLastD 0 < n then a :: walkK n fuel (C16.nextKArray a) else []
+
+/-- the `k`-subsets of `range n` in the order the `while supp[-1] < n` loops visit them -/
+def kSubsets (n k : Nat) : List (List Nat) :=
+  if k = 0 then [] else walkK n (C16.chooseFast n k + 1) (List.range k)
+
+/-- the `(k+1) × (k+1)` indifference system of `_indiff_mixed_action` as LAPACK sees it
+    (Fortran order = the transpose of the C array `A`): rows `i<k`:
+    `Σ_j P[own_i, opp_j] z_j − v = 0`; last row: `Σ_j z_j = 1`. -/
+def indiffSys (P : Nat → Nat → α) (own opp : List Nat) : M α :=
+  let k := own.length
+  M.tab (k + 1) (k + 1) fun i j =>
+    if i < k then (if j < k then P (own.getD i 0) (opp.getD j 0) else -(1 : α))
+    else (if j < k then 1 else 0)
+
+def indiffRhs (k : Nat) : M α := M.tab (k + 1) 1 fun i _ => if i = k then 1 else 0
+
+/-- `_indiff_mixed_action(payoff_matrix, own_supp, opp_supp, …)`: `none` = `False`,
+    `some z` = `True` with `out = z` (`z_0..z_{k-1}` the weights on `opp_supp`, `z_k` the value).
+    `mOwn` is the number of own actions. -/
+def indiff (solve : M α → M α → Option (M α)) (P : Nat → Nat → α) (mOwn : Nat)
+    (own opp : List Nat) : Option (Nat → α) :=
+  let k := own.length
+  match solve (indiffSys P own opp) (indiffRhs k) with
+  | none => none
+  | some Z =>
+    let z : Nat → α := fun i => Z.get i 0
+    if (List.range k).any (fun i => decide (z i ≤ 0)) then none
+    else if k = mOwn then some z
+    else if (List.range mOwn).any (fun i =>
+        !(own.contains i) && decide (z k < sumRange k fun j => P i (opp.getD j 0) * z j)) then none
+    else some z
+
+/-- `out[p][supp] = action[:-1]` on a zero vector, as the function `i ↦ out[p][i]` -/
+def scatter (supp : List Nat) (z : Nat → α) (i : Nat) : α :=
+  sumRange supp.length fun t => if supp.getD t 0 = i then z t else 0
+
+/-- the body of the inner `while` for one pair of supports -/
+def tryPair (solve : M α → M α → Option (M α)) (m n : Nat) (A B : Nat → Nat → α)
+    (s0 s1 : List Nat) : Option ((Nat → α) × (Nat → α)) :=
+  match indiff solve A m s0 s1 with
+  | none => none
+  | some zy =>
+    match indiff solve B n s1 s0 with
+    | none => none
+    | some zx => some (scatter s0 zx, scatter s1 zy)
+
+/-- all pairs of equal-size supports in the order of the three nested loops -/
+def supportPairs (m n : Nat) : List (List Nat × List Nat) :=
+  (List.range' 1 (min m n)).flatMap fun k =>
+    (kSubsets m k).flatMap fun s0 => (kSubsets n k).map fun s1 => (s0, s1)
+
+/-- `_support_enumeration_gen`: the yielded pairs with their supports, in order -/
+def supportEnum (solve : M α → M α → Option (M α)) (m n : Nat) (A B : Nat → Nat → α) :
+    List ((List Nat × List Nat) × ((Nat → α) × (Nat → α))) :=
+  (supportPairs m n).filterMap fun p =>
+    (tryPair solve m n A B p.1 p.2).map fun xy => (p, xy)
+
+/-- Diagnostic used by the correspondence only: is the outcome of `_indiff_mixed_action`
+    decided with a margin (`0`: robustly `False`, `1`: robustly `True`) or does it sit on a
+    boundary where floating-point rounding decides (`2`: singular system, a weight within
+    `eps` of 0, an outside payoff within `eps` of the value)? -/
+def indiffClass (solve : M α → M α → Option (M α)) (P : Nat → Nat → α) (mOwn : Nat)
+    (own opp : List Nat) (eps : α) : Nat :=
+  let k := own.length
+  match solve (indiffSys P own opp) (indiffRhs k) with
+  | none => 2
+  | some Z =>
+    let z : Nat → α := fun i => Z.get i 0
+    if (List.range k).any (fun i => decide (z i < -eps)) then 0
+    else if (List.range k).any (fun i => decide (z i ≤ eps)) then 2
+    else if k = mOwn then 1
+    else
+      let pay := fun i => sumRange k fun j => P i (opp.getD j 0) * z j
+      let outs := (List.range mOwn).filter fun i => !(own.contains i)
+      if outs.any (fun i => decide (z k + eps < pay i)) then 0
+      else if outs.any (fun i => decide (z k - eps ≤ pay i)) then 2
+      else 1
+
+def pairClass (solve : M α → M α → Option (M α)) (m n : Nat) (A B : Nat → Nat → α)
+    (s0 s1 : List Nat) (eps : α) : Nat :=
+  let c0 := indiffClass solve A m s0 s1 eps
+  let c1 := indiffClass solve B n s1 s0 eps
+  if c0 = 0 ∨ c1 = 0 then 0 else if c0 = 1 ∧ c1 = 1 then 1 else 2
+
+/-! ### vertex enumeration (Qhull's output is an input) -/
+
+/-- `_ints_arr_to_bits` on unbounded naturals (labels are `< m+n ≤ 63` in the code's `uint64`) -/
+def intsToBits (l : List Nat) : Nat := l.foldl (fun acc i => acc ||| (1 <<< i)) 0
+
+/-- one player's half of `_get_mixed_actions` (vertex_enumeration.py 321-333):
+    entries `start ≤ i < stop`, `out[i] = 0` when bit `i` of the labelling equals `skip`,
+    otherwise `eq[i-start] * trans_recip - eq[-1]`; then division by the sum when it is not 0. -/
+def veHalf (bits : Nat) (start cnt : Nat) (skip : Bool) (eq : List α) (tr : α) : List α :=
+  let raw : List α := (List.range cnt).map fun t =>
+    if (bits.testBit (start + t)) = skip then 0 else eq.getD t 0 * tr - eq.getD cnt 0
+  let s := (List.range cnt).foldl (fun acc t =>
+    if (bits.testBit (start + t)) = skip then acc else acc + raw.getD t 0) 0
+  if s == 0 then raw else raw.map (· / s)
+
+def veMixedActions (m n : Nat) (bits : Nat) (eq0 eq1 : List α) (t0 t1 : α) : List α × List α :=
+  (veHalf bits 0 m true eq0 t0, veHalf bits m n false eq1 t1)
+
+/-- index of the first vertex of polytope 1 completing the labelling `b0` -/
+def veFind (m n : Nat) (b0 : Nat) (bits1 : List Nat) : Option Nat :=
+  let j := bits1.findIdx fun b1 => (b0 ^^^ b1) == 2 ^ (m + n) - 1
+  if j < bits1.length then some j else none
+
+/-- `_vertex_enumeration_gen`: the matched pairs `(i, j)` in order -/
+def veMatch (m n : Nat) (bits0 bits1 : List Nat) : List (Nat × Nat) :=
+  (List.range bits0.length).filterMap fun i =>
+    let b0 := bits0.getD i 0
+    if b0 == 2 ^ m - 1 then none
+    else (veFind m n b0 bits1).map fun j => (i, j)
+
+def vertexEnum (m n : Nat) (lab0 lab1 : List (List Nat)) (eqs0 eqs1 : List (List α)) (t0 t1 : α) :
+    List (List α × List α) :=
+  let bits0 := lab0.map intsToBits
+  let bits1 := lab1.map intsToBits
+  (veMatch m n bits0 bits1).map fun ij =>
+    veMixedActions m n (bits0.getD ij.1 0) (eqs0.getD ij.1 []) (eqs1.getD ij.2 []) t0 t1
+
+/-! ### pure_nash_brute on an N-player game
+
+`nums` = numbers of actions; `pay.getD i []` = player `i`'s payoff array, C-order flattened,
+axes `(a_i, a_{i+1}, …, a_{N-1}, a_0, …, a_{i-1})`. -/
+
+/-- `l[i:] + l[:i]` -/
+def rot {β : Type} (l : List β) (i : Nat) : List β := l.drop i ++ l.take i
+
+/-- C-order flat index of the multi-index `idx` in an array of shape `shape` -/
+def flatIdx (shape idx : List Nat) : Nat :=
+  (shape.zip idx).foldl (fun acc p => acc * p.1 + p.2) 0
+
+/-- player `i`'s payoff when he plays `b` and the others play as in the profile `a`:
+    `payoff_vector(opponents_actions)[b]` -/
+def payoffAt (nums : List Nat) (pay : List (List α)) (i : Nat) (a : List Nat) (b : Nat) : α :=
+  (pay.getD i []).getD (flatIdx (rot nums i) (b :: (rot a i).tail)) 0
+
+/-- `payoff_vector.max()` -/
+def vecMax (n : Nat) (f : Nat → α) : α :=
+  (List.range n).foldl (fun acc b => if acc < f b then f b else acc) (f 0)
+
+/-- `player.is_best_response(a_i, opponents_actions, tol)` for a pure own action -/
+def isBR (nums : List Nat) (pay : List (List α)) (tol : α) (a : List Nat) (i : Nat) : Bool :=
+  let f := payoffAt nums pay i a
+  decide (vecMax (nums.getD i 0) f - tol ≤ f (a.getD i 0))
+
+/-- `np.ndindex(*nums)`: all action profiles, last index fastest -/
+def profiles : List Nat → List (List Nat)
+  | [] => [[]]
+  | n :: ns => (List.range n).flatMap fun a => (profiles ns).map fun r => a :: r
+
+def isNashPure (nums : List Nat) (pay : List (List α)) (tol : α) (a : List Nat) : Bool :=
+  (List.range nums.length).all fun i => isBR nums pay tol a i
+
+/-- `pure_nash_brute(g, tol)` -/
+def pureNashBrute (nums : List Nat) (pay : List (List α)) (tol : α) : List (List Nat) :=
+  (profiles nums).filter (isNashPure nums pay tol)
+
+/-! ### line protocol -/
+
+local instance : Zero Float := ⟨0.0⟩
+local instance : One Float := ⟨1.0⟩
+
+def fnOfMat {β : Type} [Zero β] (l : List (List β)) : Nat → Nat → β := fun i j => (l.getD i []).getD j 0
+
+def shaped {β : Type} (r c : Nat) (l : List (List β)) : Bool :=
+  l.length == r && l.all (fun row => row.length == c)
+
+def showLH (sh : α → String) (m n : Nat) (o : LHOut α) : String :=
+  let xy := lhMixedActions m n o.st
+  "conv=" ++ showBool o.converged ++ " iter=" ++ toString o.numIter ++ " init=" ++ toString o.init ++
+  " b0=" ++ showList toString o.st.b0 ++ " b1=" ++ showList toString o.st.b1 ++
+  " x=" ++ showList sh xy.1 ++ " y=" ++ showList sh xy.2
+
+def showSE (m n : Nat) (l : List ((List Nat × List Nat) × ((Nat → Rat) × (Nat → Rat)))) : String :=
+  if l.isEmpty then "-" else
+  "|".intercalate (l.map fun e =>
+    showList toString e.1.1 ++ ":" ++ showList toString e.1.2 ++ ":" ++
+    showList showRat ((List.range m).map e.2.1) ++ ":" ++ showList showRat ((List.range n).map e.2.2))
+
+def showPairs (l : List (List Nat × List Nat)) : String :=
+  if l.isEmpty then "-" else
+  "|".intercalate (l.map fun e => showList toString e.1 ++ ":" ++ showList toString e.2)
+
+def showVE {β : Type} (sh : β → String) (l : List (List β × List β)) : String :=
+  if l.isEmpty then "-" else
+  "|".intercalate (l.map fun e => showList sh e.1 ++ ":" ++ showList sh e.2)
+
+def handle (toks : List String) : String :=
+  match toks with
+  | "lh" :: r =>
+    -- exact reference (Rat) with the code's tolerances given as exact rationals
+    match kvNat r "m", kvNat r "n", kvRatMat r "A", kvRatMat r "B", kvNat r "init",
+          kvNat r "maxiter", kvNat r "capping", kvRat r "tolpiv", kvRat r "toldiff" with
+    | some m, some n, some A, some B, some ip, some mi, some cap, some tp, some td =>
+      if shaped m n A && shaped n m B && m ≥ 1 && n ≥ 1 && ip < m + n then
+        showLH showRat m n (lhCapping m n (fnOfMat A) (fnOfMat B) ip mi cap tp td)
+      else "bad-op"
+    | _, _, _, _, _, _, _, _, _ => "bad-op"
+  | "lhf" :: r =>
+    -- IEEE doubles: trace fidelity with the Numba kernels
+    match kvNat r "m", kvNat r "n", kvFloatMat r "A", kvFloatMat r "B", kvNat r "init",
+          kvNat r "maxiter", kvNat r "capping", (kv r "tolpiv").bind parseFloat?,
+          (kv r "toldiff").bind parseFloat? with
+    | some m, some n, some A, some B, some ip, some mi, some cap, some tp, some td =>
+      if shaped m n A && shaped n m B && m ≥ 1 && n ≥ 1 && ip < m + n then
+        showLH showFloatBits m n (lhCapping m n (fnOfMat A) (fnOfMat B) ip mi cap tp td)
+      else "bad-op"
+    | _, _, _, _, _, _, _, _, _ => "bad-op"
+  | "se" :: r =>
+    match kvNat r "m", kvNat r "n", kvRatMat r "A", kvRatMat r "B", kvRat r "eps" with
+    | some m, some n, some A, some B, some eps =>
+      if shaped m n A && shaped n m B && m ≥ 1 && n ≥ 1 then
+        let fA := fnOfMat A
+        let fB := fnOfMat B
+        let ne := supportEnum MatAlg.solve m n fA fB
+        let frag := (supportPairs m n).filter fun p => pairClass MatAlg.solve m n fA fB p.1 p.2 eps = 2
+        "npairs=" ++ toString (supportPairs m n).length ++ " ne=" ++ showSE m n ne ++
+        " frag=" ++ showPairs frag
+      else "bad-op"
+    | _, _, _, _, _ => "bad-op"
+  | "ksub" :: r =>
+    match kvNat r "n", kvNat r "k" with
+    | some n, some k => showMat toString (kSubsets n k)
+    | _, _ => "bad-op"
+  | "vef" :: r =>
+    match kvNat r "m", kvNat r "n", kvNatMat r "lab0", kvNatMat r "lab1", kvFloatMat r "eq0",
+          kvFloatMat r "eq1", (kv r "t0").bind parseFloat?, (kv r "t1").bind parseFloat? with
+    | some m, some n, some l0, some l1, some e0, some e1, some t0, some t1 =>
+      if l0.length == e0.length && l1.length == e1.length && e0.all (fun e => e.length == m + 1)
+          && e1.all (fun e => e.length == n + 1) && m + n ≤ 63 then
+        showVE showFloatBits (vertexEnum m n l0 l1 e0 e1 t0 t1)
+      else "bad-op"
+    | _, _, _, _, _, _, _, _ => "bad-op"
+  | "vematch" :: r =>
+    match kvNat r "m", kvNat r "n", kvNatMat r "lab0", kvNatMat r "lab1" with
+    | some m, some n, some l0, some l1 =>
+      let ps := veMatch m n (l0.map intsToBits) (l1.map intsToBits)
+      if ps.isEmpty then "-" else "|".intercalate (ps.map fun p => toString p.1 ++ ":" ++ toString p.2)
+    | _, _, _, _ => "bad-op"
+  | "pn" :: r =>
+    match kvNats r "nums", kvRatMat r "pay", kvRat r "tol" with
+    | some nums, some pay, some tol =>
+      if pay.length == nums.length && pay.all (fun p => p.length == nums.foldl (· * ·) 1)
+          && nums.all (· ≥ 1) && nums.length ≥ 1 then
+        showMat toString (pureNashBrute nums pay tol)
+      else "bad-op"
+    | _, _, _ => "bad-op"
+  | "pnf" :: r =>
+    match kvNats r "nums", kvFloatMat r "pay", (kv r "tol").bind parseFloat? with
+    | some nums, some pay, some tol =>
+      if pay.length == nums.length && pay.all (fun p => p.length == nums.foldl (· * ·) 1)
+          && nums.all (· ≥ 1) && nums.length ≥ 1 then
+        showMat toString (pureNashBrute nums pay tol)
+      else "bad-op"
+    | _, _, _ => "bad-op"
+  | _ => "bad-op"
 
 end QE.C05
